@@ -26,6 +26,8 @@ PROPS = {
     "C07": {"scenarios": ["roundtrip.fide"]},
     "C08": {"scenarios": ["roundtrip.glencoe"]},
     "C12": {"scenarios": ["serialise"]},
+    "C17": {"scenarios": ["metrics-session"]},
+    "C19": {"scenarios": ["ops-session", "metrics-session"]},
 }
 
 REAL = ["flamapy.metamodels.fm_metamodel (from the working tree of /repo)", "flamapy.core",
